@@ -461,12 +461,163 @@ let op_scan r = function
     end
   | _ -> failwith "scan: fields"
 
+(* ---------- op: scanseq (C07) ---------- *)
+let fin_of final = if final = "eof" then M.EOF else
+  M.Fail (n_of_int (int_of_string (String.sub final 5 (String.length final - 5))))
+
+let op_scanseq r = function
+  | [content; final; regions; calls; rest; alone] ->
+    let content_s = unhex content in
+    if starts_with calls "PANIC" then begin
+      flag r "impl:panic";
+      (match M.scan_seq (nat_of_int 3000) (bytes_of_hex content) (fin_of final) with
+       | M.Panic _ -> () | M.Ok _ -> flag r "corr:panic")
+    end else begin
+      let icalls = List.map (fun c -> match String.split_on_char '|' c with
+        | [sn; fw; er] -> (sn, unhex fw, er) | _ -> failwith "call") (split_on ';' calls) in
+      tag r (Printf.sprintf "calls=%d" (min 9 (List.length icalls)));
+      (* model *)
+      (match M.scan_seq (nat_of_int 3000) (bytes_of_hex content) (fin_of final) with
+       | M.Panic _ -> flag r "model:panic"; flag r "corr:panic"
+       | M.Ok (items, mrest) ->
+         let mcalls = List.map (fun ((sn, fw), er) ->
+           ((match sn with None -> "nil" | Some gs -> canon_gs gs), string_of_bytes fw, err_class er)) items in
+         let icalls_c = List.map (fun (sn, fw, er) ->
+           ((if sn = "nil" then "nil" else canon_gs (goroutines_of (parse_sx sn))), fw, er)) icalls in
+         if mcalls <> icalls_c then flag r "corr:seq";
+         if string_of_bytes mrest <> unhex rest then flag r "corr:seqrest");
+      (* C07 oracle on the implementation's output: one snapshot per generated dump, equal to
+         scanning that dump alone; everything else forwarded, in order, nothing twice *)
+      let regs = List.map (fun g -> match String.split_on_char ':' g with
+        | [a; b] -> (int_of_string a, int_of_string b) | _ -> failwith "region") (split_on ',' regions) in
+      tag r (Printf.sprintf "dumps=%d" (List.length regs));
+      let snaps = List.filter (fun (sn, _, _) -> sn <> "nil") icalls in
+      let alone_l = split_on ';' alone in
+      if List.length snaps <> List.length regs then flag r "prop:C07:snapshot-count"
+      else if List.map (fun (sn, _, _) -> sn) snaps <> alone_l then flag r "prop:C07:differs-from-dump-alone";
+      let junk = Buffer.create 1024 in
+      let pos = ref 0 in
+      List.iter (fun (a, b) -> Buffer.add_string junk (String.sub content_s !pos (a - !pos)); pos := b) regs;
+      Buffer.add_string junk (String.sub content_s !pos (String.length content_s - !pos));
+      let fwd_all = String.concat "" (List.map (fun (_, fw, _) -> fw) icalls) ^ unhex rest in
+      if fwd_all <> Buffer.contents junk then flag r "prop:C07:stream-positions";
+      (match List.rev icalls with
+       | (_, _, er) :: _ -> if er <> final then flag r "prop:C07:final-error"
+       | [] -> flag r "prop:C07:no-calls")
+    end
+  | _ -> failwith "scanseq: fields"
+
+(* ---------- op: cut (C10) ---------- *)
+let rec erase_arg (a : M.arg) : M.arg =
+  match a with
+  | M.MkArg (ag, _, v, p, tl, ia, fv, fp, fe) -> M.MkArg (ag, [], v, p, tl, ia, List.map erase_arg fv, fp, fe)
+let erase_call (c : M.call) = { c with M.cArgs = { c.M.cArgs with M.values = List.map erase_arg c.M.cArgs.M.values } }
+let erase_stack (s : M.stack) = { s with M.calls = List.map erase_call s.M.calls }
+let erase_g (g : M.goroutine) =
+  { g with M.gSig = { g.M.gSig with M.createdBy = erase_stack g.M.gSig.M.createdBy; sStack = erase_stack g.M.gSig.M.sStack } }
+let canon_g g = sx_to_string (sx_of_goroutine (mask_goroutine (erase_g g)))
+
+let op_cut r = function
+  | [content; cut; signal; ends; kind; f_snap; f_fwd; f_err; c_snap; c_fwd; c_suffix; c_unread; c_err] ->
+    let content_s = unhex content in
+    let cut = int_of_string cut in
+    let cut_s = String.sub content_s 0 cut in
+    tag r ("signal=" ^ signal); tag r ("kind=" ^ kind);
+    if starts_with c_snap "PANIC" || starts_with f_snap "PANIC" then flag r "impl:panic" else begin
+      (* model on the cut input *)
+      let sched, final = (match signal with
+        | "fail" -> (string_of_int (String.length content_s + 1), "fail:7")
+        | "faild" -> ("-", "fail:7")
+        | _ -> ("-", "eof")) in
+      (match M.scan_snapshot false (source_of (hex cut_s) sched final) with
+       | M.Panic _ -> flag r "model:panic"; flag r "corr:panic"
+       | M.Ok res ->
+         let m_snap = match res.M.snap with None -> "nil" | Some gs -> canon_gs gs in
+         let i_snap = if c_snap = "nil" then "nil" else canon_gs (goroutines_of (parse_sx c_snap)) in
+         if m_snap <> i_snap then flag r "corr:snap";
+         if string_of_bytes res.M.fwd <> unhex c_fwd then flag r "corr:fwd";
+         if err_class res.M.rerr_out <> c_err then flag r "corr:err";
+         if string_of_bytes res.M.suffix ^ string_of_bytes res.M.unread.M.rest <> unhex c_suffix ^ unhex c_unread then flag r "corr:rest");
+      (* ---- C10 oracle on the implementation's output ---- *)
+      let ffwd = unhex f_fwd and cfwd = unhex c_fwd in
+      let fgs = if f_snap = "nil" then [] else goroutines_of (parse_sx f_snap) in
+      let cgs = if c_snap = "nil" then [] else goroutines_of (parse_sx c_snap) in
+      tag r (Printf.sprintf "cgs=%d" (min 9 (List.length cgs)));
+      (* stopped early = the scan ended before the cut input was exhausted *)
+      let consumed_all = (unhex c_suffix = "" && unhex c_unread = "") in
+      (* error *)
+      (match signal with
+       | "eof" ->
+         if not (c_err = "eof" || c_err = "scan" || (not consumed_all && c_err = f_err)) then flag r "prop:C10:error-class"
+       | _ ->
+         if c_err = "fail:7" then ()
+         else if consumed_all && signal = "fail" then flag r "prop:C10:reader-failure-not-reported"
+         else if not (c_err = "nil" || c_err = "scan") then flag r "prop:C10:error-class");
+      (* goroutines complete before the cut are present and identical *)
+      let ends_l = List.map int_of_string (split_on ',' ends) in
+      List.iteri (fun i e ->
+        if e <= cut then
+          (match List.nth_opt fgs i, List.nth_opt cgs i with
+           | Some fg, Some cg -> if canon_g fg <> canon_g cg then flag r "prop:C10:complete-goroutine-differs"
+           | Some _, None -> flag r "prop:C10:complete-goroutine-missing"
+           | None, _ -> ())) ends_l;
+      if List.length cgs > List.length fgs then flag r "prop:C10:goroutine-invented";
+      if kind = "dump" then
+        List.iteri (fun i cg ->
+          if i < List.length cgs - 1 then
+            (match List.nth_opt fgs i with
+             | Some fg -> if canon_g fg <> canon_g cg then flag r "prop:C10:non-last-goroutine-partial"
+             | None -> ())) cgs;
+      (* forwarded bytes: a prefix of the uncut run's, K2 aside *)
+      if not (is_prefix cfwd ffwd) then begin
+        (* K2, matched narrowly: the only excess is the unterminated last fragment of the cut
+           input, forwarded while no goroutine exists yet (the uncut stream consumes that line
+           as a header / race separator / race warning) *)
+        let t = (match String.rindex_opt cut_s '\n' with
+                 | Some j -> String.sub cut_s (j + 1) (cut - j - 1) | None -> cut_s) in
+        let lt = String.length t and lc = String.length cfwd in
+        if t <> "" && cgs = [] && is_suffix t cfwd && is_prefix (String.sub cfwd 0 (lc - lt)) ffwd
+        then flag r "known:K2"
+        else flag r "prop:C10:forwarded-not-prefix"
+      end
+    end
+  | _ -> failwith "cut: fields"
+
+(* ---------- op: names (C15) ---------- *)
+let op_names r = function
+  | [content; s_off; s_on] ->
+    if starts_with s_off "PANIC" || starts_with s_on "PANIC" then flag r "impl:panic"
+    else if s_off = "nil" || s_on = "nil" then flag r "driver:names-no-snapshot"
+    else begin
+      let before = goroutines_of (parse_sx s_off) and after = goroutines_of (parse_sx s_on) in
+      if not (M.no_names before) then flag r "prop:C15:named-with-option-off";
+      if not (M.c15_ok before after) then flag r "prop:C15:labelling";
+      if not (M.no_names after) then tag r "named";
+      tag r (Printf.sprintf "gs=%d" (min 9 (List.length after)));
+      (match M.scan_snapshot true (source_of content "-" "eof") with
+       | M.Ok { M.snap = Some gs } -> if canon_gs gs <> canon_gs after then flag r "corr:names"
+       | M.Ok _ -> flag r "corr:names"
+       | M.Panic _ -> flag r "corr:panic")
+    end
+  | _ -> failwith "names: fields"
+
+(* ---------- op: chunk (C09 exhaustive) ---------- *)
+let op_chunk r = function
+  | [_content; count; same; diff] ->
+    tag r "chunk"; tag r ("chunkings=" ^ count);
+    if same <> "1" then (flag r "prop:C09:chunking-dependent"; r.detail <- diff)
+  | _ -> failwith "chunk: fields"
+
 (* ---------- main loop ---------- *)
 let () =
   let ops : (string, res -> string list -> unit) Hashtbl.t = Hashtbl.create 16 in
   Hashtbl.replace ops "aggregate" op_aggregate;
   Hashtbl.replace ops "less3" op_less3;
   Hashtbl.replace ops "scan" op_scan;
+  Hashtbl.replace ops "scanseq" op_scanseq;
+  Hashtbl.replace ops "cut" op_cut;
+  Hashtbl.replace ops "names" op_names;
+  Hashtbl.replace ops "chunk" op_chunk;
   (try
     while true do
       let line = input_line stdin in
